@@ -121,6 +121,8 @@ type World struct {
 	witnessModel map[string]string
 	strVars map[string]*strVarInfo
 	declared map[string]bool
+	randFixed bool
+	schedFull bool
 }
 
 func (w *World) newObj(v Val, t types.Type) *Obj { w.nobj++; return &Obj{v: v, id: w.nobj, typ: t} }
@@ -404,8 +406,20 @@ func (w *World) run() {
 			}
 			continue
 		}
-		d := w.decide(len(en), "sched")
-		t := en[d]
+		var t *Thread
+		atYield := false
+		for _, c := range en {
+			if c.yieldAt != "" {
+				atYield = true
+			}
+		}
+		if atYield || w.schedFull {
+			t = en[w.decide(len(en), "sched")]
+		} else {
+			// no enabled thread is parked at a store-operation leg / callback boundary: run the woken
+			// threads in creation order (reduction R1: context switches are explored at yields only)
+			t = en[0]
+		}
 		t.ready = nil
 		t.waitCh, t.waitTm, t.waitMu = nil, nil, nil
 		t.yielded = false
@@ -459,19 +473,27 @@ func (w *World) advanceTime() bool {
 				next = tm
 			}
 		}
-		// several timers due at the same instant: order is a decision
-		var same []*Timer
-		for _, tm := range live {
-			if tm.at.(int64) == next.at.(int64) {
-				same = append(same, tm)
-			}
-		}
-		if len(same) > 1 {
-			next = same[w.decide(len(same), "timer-tie")]
-		}
+		// several timers due at the same instant fire together (in creation order): firing only enables
+		// threads; the order in which those run is the scheduler's decision
 		if next.at.(int64) > w.now.(int64) {
 			w.now = next.at
 		}
+		at := next.at.(int64)
+		var same []*Timer
+		for _, tm := range live {
+			if tm != next && tm.at.(int64) == at {
+				same = append(same, tm)
+			}
+		}
+		sort.Slice(same, func(i, j int) bool { return same[i].id < same[j].id })
+		w.envEpoch++
+		w.fire(next)
+		for _, tm := range same {
+			if !tm.dead {
+				w.fire(tm)
+			}
+		}
+		return true
 	} else {
 		earliest := func(k int) string {
 			c := "(and (>= " + term(live[k].at) + " " + term(w.now) + ")"
